@@ -64,12 +64,19 @@ class _NotInlinable(Exception):
     pass
 
 
-def _single_exit(stmts: list[ast.stmt], res: str) -> tuple[list[ast.stmt], bool]:
+def _single_exit(stmts: list[ast.stmt], res) -> tuple[list[ast.stmt], bool]:
     """Rewrite `return e` as `res = e`, moving the statements that follow an early return into the other branch.
     -> (statements, every path through them ended in a return)."""
     out: list[ast.stmt] = []
     for i, st in enumerate(stmts):
         if isinstance(st, ast.Return):
+            if isinstance(res, list):
+                # `a, b = helper()` with `return x, y`: element-wise (the targets never occur in the returned expressions)
+                if not (isinstance(st.value, ast.Tuple) and len(st.value.elts) == len(res)):
+                    raise _NotInlinable("tuple arity")
+                for name, v in zip(res, st.value.elts):
+                    out.append(ast.Assign(targets=[ast.Name(id=name, ctx=ast.Store())], value=v))
+                return out, True
             out.append(ast.Assign(targets=[ast.Name(id=res, ctx=ast.Store())], value=st.value or ast.Constant(None)))
             return out, True
         if not _has(st, ast.Return):
@@ -216,9 +223,9 @@ class _Inliner:
             else:
                 names[p] = p + tag
                 pre.append(ast.Assign(targets=[ast.Name(id=p + tag, ctx=ast.Store())], value=arg))
-        new_body, _ = _single_exit(copy.deepcopy(body), res)
         ren = _Renamer(names, subst)
-        new_body = [ren.visit(st) for st in new_body]
+        new_body = [ren.visit(st) for st in copy.deepcopy(body)]   # rename first: the result names belong to the caller
+        new_body, _ = _single_exit(new_body, res)
         out = pre + new_body
         for st in out:
             for n in ast.walk(st):
@@ -290,9 +297,23 @@ class _Inliner:
                         direct_target = st.target.id
                     if direct_target is not None and any(isinstance(n, ast.Name) and n.id == direct_target for n in ast.walk(call)):
                         direct_target = None
+                    tuple_targets = None
+                    if isinstance(st, ast.Assign) and st.value is call and len(st.targets) == 1 and isinstance(st.targets[0], ast.Tuple) and \
+                            all(isinstance(e, ast.Name) for e in st.targets[0].elts):
+                        names = [e.id for e in st.targets[0].elts]
+                        if len(set(names)) == len(names) and not any(isinstance(n, ast.Name) and n.id in names for n in ast.walk(call)):
+                            tuple_targets = names
                     self.counter += 1
-                    res = direct_target or f"__ret_{callee.name.strip('_')}{self.counter}"
-                    body = self._instantiate(callee, call, recv, res)
+                    body = None
+                    if tuple_targets is not None:
+                        try:
+                            body = self._instantiate(callee, call, recv, tuple_targets)
+                            direct_target = "<tuple>"
+                        except _NotInlinable:
+                            body = None
+                    if body is None:
+                        res = direct_target or f"__ret_{callee.name.strip('_')}{self.counter}"
+                        body = self._instantiate(callee, call, recv, res)
                 except _NotInlinable:
                     continue
                 out.extend(body)
